@@ -63,6 +63,9 @@ pub enum OpKind {
     PluginEngine,
     CloneVnr,
     Snapshot,
+    /// validate, clone, edit the clone in place (public fields), validate the clone through
+    /// every direct entry point, and validate the same edit applied to a never-validated copy
+    CloneEdit,
 }
 
 #[derive(Serialize, Deserialize, Clone, Debug, PartialEq)]
@@ -72,6 +75,9 @@ pub struct Op {
     pub kind: OpKind,
     /// scheduler-injected wall-clock jump before this operation (0 = none)
     pub jump_ns: i64,
+    /// CloneEdit: donor subject and kind of edit
+    #[serde(default)]
+    pub aux: u64,
 }
 
 #[derive(Serialize, Deserialize, Clone, Debug)]
@@ -348,7 +354,70 @@ pub struct Subject {
     pub mt: String,
     pub text: String,
     pub parsed: ParsedSwiftMessage,
+    /// a copy taken before any validation call touched the message
+    pub pristine: ParsedSwiftMessage,
     pub snap: (u64, u64),
+}
+
+/// In-place edit of a message's public fields (repetitive sequences; for MT103 two optional
+/// fields), using `donor` (same type) as the source of foreign elements. Returns whether the
+/// message was changed.
+fn edit_in_place(p: &mut ParsedSwiftMessage, donor: &ParsedSwiftMessage, how: u64) -> bool {
+    macro_rules! vec_edit {
+        ($m:expr, $d:expr, $f:ident) => {{
+            let v = &mut $m.fields.$f;
+            match how % 4 {
+                0 => {
+                    if v.len() > 1 {
+                        v.pop();
+                        true
+                    } else {
+                        false
+                    }
+                }
+                1 => match v.first().cloned() {
+                    Some(x) => {
+                        v.push(x);
+                        true
+                    }
+                    None => false,
+                },
+                2 => {
+                    *v = $d.fields.$f.clone();
+                    true
+                }
+                _ => match $d.fields.$f.last().cloned() {
+                    Some(x) => {
+                        v.push(x);
+                        true
+                    }
+                    None => false,
+                },
+            }
+        }};
+    }
+    use ParsedSwiftMessage as P;
+    match (p, donor) {
+        (P::MT101(m), P::MT101(d)) => vec_edit!(m, d, transactions),
+        (P::MT104(m), P::MT104(d)) => vec_edit!(m, d, transactions),
+        (P::MT107(m), P::MT107(d)) => vec_edit!(m, d, transactions),
+        (P::MT110(m), P::MT110(d)) => vec_edit!(m, d, cheques),
+        (P::MT204(m), P::MT204(d)) => vec_edit!(m, d, transactions),
+        (P::MT210(m), P::MT210(d)) => vec_edit!(m, d, transactions),
+        (P::MT920(m), P::MT920(d)) => vec_edit!(m, d, sequence),
+        (P::MT935(m), P::MT935(d)) => vec_edit!(m, d, rate_changes),
+        (P::MT940(m), P::MT940(d)) => vec_edit!(m, d, statement_lines),
+        (P::MT942(m), P::MT942(d)) => vec_edit!(m, d, statement_lines),
+        (P::MT103(m), P::MT103(d)) => {
+            match how % 3 {
+                0 => m.fields.field_23e = None,
+                1 => m.fields.field_23e = d.fields.field_23e.clone(),
+                _ => m.fields.field_72 = d.fields.field_72.clone(),
+            }
+            true
+        }
+        _ => false,
+    }
 }
 
 /// JSON → MT text → auto-detected parse, all through the library; `None` when
@@ -380,6 +449,7 @@ enum OpResult {
     VResult { is_valid: bool, errors: Vec<Value>, warnings: usize },
     Plugin { out: Value, exec_err: Option<String>, polls: u32 },
     Snap(u64, u64),
+    Edited { applied: bool, full: Vec<Value>, full_codes: Vec<String>, stop: Vec<Value>, valid: (bool, usize), pristine_full: Vec<Value>, pristine_codes: Vec<String> },
     Panicked(String),
     Harness(String),
 }
@@ -392,8 +462,29 @@ fn vres(r: swift_mt_message::ValidationResult) -> OpResult {
     OpResult::VResult { is_valid: r.is_valid, errors: r.errors.iter().map(|e| serde_json::to_value(e).unwrap_or(Value::Null)).collect(), warnings: r.warnings.len() }
 }
 
+fn exec_clone_edit(s: &Subject, donor: &Subject, how: u64) -> OpResult {
+    // the history that matters: validate first, then clone, then edit the clone
+    let _ = mt::vnr(&s.parsed, false);
+    let mut c = s.parsed.clone();
+    let same_type = c.message_type() == donor.parsed.message_type();
+    let applied = if same_type { edit_in_place(&mut c, &donor.pristine, how) } else { edit_in_place(&mut c, &s.pristine, how % 2) };
+    let full = mt::vnr(&c, false);
+    let stop = mt::vnr(&c, true);
+    let v = mt::swift_validate(&c);
+    // the same edit on a copy no validation call has ever touched
+    let mut fresh = s.pristine.clone();
+    let _ = if same_type { edit_in_place(&mut fresh, &donor.pristine, how) } else { edit_in_place(&mut fresh, &s.pristine, how % 2) };
+    let pf = mt::vnr(&fresh, false);
+    let ser = |v: &[swift_mt_message::SwiftValidationError]| -> (Vec<Value>, Vec<String>) { (v.iter().map(|e| serde_json::to_value(e).unwrap_or(Value::Null)).collect(), v.iter().map(|e| e.error_code().to_string()).collect()) };
+    let (full_v, full_codes) = ser(&full);
+    let (stop_v, _) = ser(&stop);
+    let (pf_v, pf_codes) = ser(&pf);
+    OpResult::Edited { applied, full: full_v, full_codes, stop: stop_v, valid: (v.is_valid, v.errors.len()), pristine_full: pf_v, pristine_codes: pf_codes }
+}
+
 fn exec_op(kind: OpKind, s: &Subject) -> OpResult {
     match kind {
+        OpKind::CloneEdit => OpResult::Harness("CloneEdit needs a donor".into()),
         OpKind::VnrFull => errs_to_values(&mt::vnr(&s.parsed, false)),
         OpKind::VnrStop => errs_to_values(&mt::vnr(&s.parsed, true)),
         OpKind::SwiftValidate => vres(mt::swift_validate(&s.parsed)),
@@ -456,6 +547,7 @@ fn digest_result(r: &OpResult) -> String {
             format!("plugin valid={} errors={} polls={polls} err={} {}", out["valid"], out["errors"].as_array().map(|a| a.len()).unwrap_or(0), exec_err.is_some(), hex(fnv_str(&o.to_string())))
         }
         OpResult::Snap(a, b) => format!("snap {} {}", hex(*a), hex(*b)),
+        OpResult::Edited { applied, full_codes, stop, valid, pristine_codes, .. } => format!("edited applied={applied} full={} stop={} valid={valid:?} pristine={}", full_codes.join(","), stop.len(), pristine_codes.join(",")),
         OpResult::Panicked(p) => format!("panicked {}", p.chars().take(60).collect::<String>()),
         OpResult::Harness(h) => format!("harness {h}"),
     }
@@ -598,6 +690,29 @@ impl History {
                             _ => {}
                         }
                     }
+                    (OpKind::CloneEdit, OpResult::Edited { applied, full, full_codes, stop, valid, pristine_full, pristine_codes }) => {
+                        if *applied {
+                            let is_prefix = stop.len() <= full.len() && stop[..] == full[..stop.len()];
+                            if !is_prefix || stop.is_empty() != full.is_empty() {
+                                return Some(viol(
+                                    format!("C13/I2 {mt} stop-on-first vs full list on an edited copy"),
+                                    format!("operation {seq} on subject {m}: after validate → clone → in-place edit, stop-on-first returned {} error(s), the full list has codes {full_codes:?}", stop.len()),
+                                ));
+                            }
+                            if valid.0 != full.is_empty() || valid.1 != full.len() {
+                                return Some(viol(
+                                    format!("C13/I3 {mt} SwiftMessage::validate disagrees with the full list on an edited copy"),
+                                    format!("operation {seq} on subject {m}: validate returned is_valid={} with {} error(s), the full list has codes {full_codes:?}", valid.0, valid.1),
+                                ));
+                            }
+                            if full != pristine_full {
+                                return Some(viol(
+                                    format!("C13/I8 {mt} validation of an edited copy depends on what was validated before the edit"),
+                                    format!("operation {seq} on subject {m}: validate → clone → edit → validate returned codes {full_codes:?}; the same edit on a never-validated copy returns {pristine_codes:?}"),
+                                ));
+                            }
+                        }
+                    }
                     (OpKind::Snapshot, OpResult::Snap(a, b)) => {
                         if (*a, *b) != s.snap {
                             return Some(viol(
@@ -632,14 +747,21 @@ fn run_phase(ctx: &Arc<seam::RunCtx>, e_h: u64, subjects: &Arc<Vec<Subject>>, ca
     let mut handles = vec![];
     for _ in 0..k {
         let (ctx_c, subs) = (ctx.clone(), subjects.clone());
-        let (tx, rx) = mpsc::channel::<Option<(OpKind, usize)>>();
+        let (tx, rx) = mpsc::channel::<Option<(OpKind, usize, u64)>>();
         let (rtx, rrx) = mpsc::channel::<OpResult>();
         cmd_tx.push(tx);
         resp_rx.push(rrx);
         handles.push(std::thread::spawn(move || {
             let _a = seam::attach(&ctx_c);
-            while let Ok(Some((kind, m))) = rx.recv() {
-                let r = std::panic::catch_unwind(std::panic::AssertUnwindSafe(|| exec_op(kind, &subs[m]))).unwrap_or_else(|p| {
+            while let Ok(Some((kind, m, aux))) = rx.recv() {
+                let r = std::panic::catch_unwind(std::panic::AssertUnwindSafe(|| {
+                    if kind == OpKind::CloneEdit {
+                        exec_clone_edit(&subs[m], &subs[(aux as usize / 8) % subs.len()], aux % 8)
+                    } else {
+                        exec_op(kind, &subs[m])
+                    }
+                }))
+                .unwrap_or_else(|p| {
                     OpResult::Panicked(p.downcast_ref::<String>().cloned().or(p.downcast_ref::<&str>().map(|s| s.to_string())).unwrap_or("panic".into()))
                 });
                 if rtx.send(r).is_err() {
@@ -651,9 +773,9 @@ fn run_phase(ctx: &Arc<seam::RunCtx>, e_h: u64, subjects: &Arc<Vec<Subject>>, ca
     // closing reads: a full validation, a stop-on-first validation and a snapshot of every subject
     let mut all: Vec<Op> = ops.to_vec();
     for m in 0..subjects.len() {
-        all.push(Op { caller: m, subject: m, kind: OpKind::VnrFull, jump_ns: 0 });
-        all.push(Op { caller: m + 2, subject: m, kind: OpKind::VnrStop, jump_ns: 0 });
-        all.push(Op { caller: m + 1, subject: m, kind: OpKind::Snapshot, jump_ns: 0 });
+        all.push(Op { caller: m, subject: m, kind: OpKind::VnrFull, jump_ns: 0, aux: 0 });
+        all.push(Op { caller: m + 2, subject: m, kind: OpKind::VnrStop, jump_ns: 0, aux: 0 });
+        all.push(Op { caller: m + 1, subject: m, kind: OpKind::Snapshot, jump_ns: 0, aux: 0 });
     }
     for (seq, op) in all.iter().enumerate() {
         if subjects.is_empty() {
@@ -664,7 +786,7 @@ fn run_phase(ctx: &Arc<seam::RunCtx>, e_h: u64, subjects: &Arc<Vec<Subject>>, ca
         if op.jump_ns != 0 {
             ctx.jump_now(op.jump_ns);
         }
-        if cmd_tx[c].send(Some((op.kind, m))).is_err() {
+        if cmd_tx[c].send(Some((op.kind, m, op.aux))).is_err() {
             po.discard = Some("caller thread gone".into());
             break;
         }
@@ -733,7 +855,7 @@ impl Engine for C13 {
         for _ in 0..n_ops {
             let kind = *s.pick(&[
                 OpKind::VnrFull, OpKind::VnrFull, OpKind::VnrFull, OpKind::VnrStop, OpKind::VnrStop, OpKind::VnrStop, OpKind::SwiftValidate, OpKind::SwiftValidate, OpKind::ParsedValidate, OpKind::ParsedValidate, OpKind::PluginDirect,
-                OpKind::PluginDirect, OpKind::PluginEngine, OpKind::CloneVnr, OpKind::Snapshot,
+                OpKind::PluginDirect, OpKind::PluginEngine, OpKind::CloneVnr, OpKind::Snapshot, OpKind::CloneEdit,
             ]);
             let jump_ns = if s.chance(1, 5) {
                 let d = *cr.pick(&[seam::NS, 3600 * seam::NS, seam::DAY_NS, 40 * seam::DAY_NS, 400 * seam::DAY_NS]);
@@ -741,7 +863,7 @@ impl Engine for C13 {
             } else {
                 0
             };
-            ops.push(Op { caller: s.below(callers), subject: s.below(n_subj), kind, jump_ns });
+            ops.push(Op { caller: s.below(callers), subject: s.below(n_subj), kind, jump_ns, aux: s.next() % 64 });
         }
         Spec {
             run_seed,
@@ -848,7 +970,8 @@ impl Engine for C13 {
                 resolved.subjects[k].plan = MutPlan::Explicit(accepted.clone());
                 let snap = snap_digest(&parsed);
                 out.log.push(format!("subject {k} MT{} text={} bytes={} muts={}", parsed.message_type(), hex(fnv_str(&text)), text.len(), serde_json::to_string(&accepted).unwrap_or_default().chars().take(300).collect::<String>()));
-                subjects.push(Subject { mt: parsed.message_type().to_string(), text, parsed, snap });
+                let pristine = parsed.clone();
+                subjects.push(Subject { mt: parsed.message_type().to_string(), text, parsed, pristine, snap });
             }
             out.content_digest = fnv_str(&subjects.iter().map(|s| s.text.as_str()).collect::<Vec<_>>().join("\u{1}"));
             let subjects = Arc::new(subjects);
